@@ -11,6 +11,7 @@ import (
 	"os/exec"
 	"path/filepath"
 	"runtime"
+	"runtime/debug"
 	"sort"
 	"strconv"
 	"strings"
@@ -233,8 +234,37 @@ func Workers() int {
 	return n
 }
 
+// activeCtx is the run's context (for code that has no other way to report).
+var activeCtx *Ctx
+
+// guarded wraps a per-case function: a panic that escapes a case - the oracle meeting a shape it cannot
+// interpret, typically because the library built or returned something the description rules out - is
+// recorded as a violation of that case instead of killing the whole run.
+func guarded(f func(i int)) func(i int) {
+	return func(i int) {
+		defer func() {
+			if r := recover(); r != nil {
+				if _, abort := r.(abortSentinel); abort {
+					panic(r)
+				}
+				if dp, dead := r.(deadlockPanic); dead {
+					heldMutexes.Delete(dp.mutex)
+				}
+				st := shortStack(debug.Stack())
+				if c := activeCtx; c != nil {
+					c.Violation("oracle-panic:"+panicSite(st), fmt.Sprintf("case #%d: the check itself panicked while examining what the library produced (%v): the result does not have the shape the description requires\n%s", i, r, st), nil, 1<<20)
+					return
+				}
+				panic(r)
+			}
+		}()
+		f(i)
+	}
+}
+
 // parallelFor runs f(i) for i in [0,n) on all cores; f must be safe for concurrent use.
 func parallelFor(n int, f func(i int)) {
+	f = guarded(f)
 	w := Workers()
 	if w > n {
 		w = n
@@ -464,6 +494,7 @@ func main() {
 		d = *budget
 	}
 	c.Deadline = c.Start.Add(d)
+	activeCtx = c
 	// watchdog: a hang (a call that never returns in the code under test) must not stall the caller
 	// forever; well after the internal deadline the process gives up without a verdict.
 	go func() {
